@@ -3,7 +3,8 @@
    So a VIOLATION always is a difference between the implementation and the model's calls — the
    property oracle ([decodeK] / [meetsK] evaluated on the observation) adds no alarm of its own. *)
 From Coq Require Import List ZArith Bool String Ascii Lia.
-From GZ Require Import C08.Model C08.Spec C08.Proofs C08.KModel C08.KSpec C08.KProofs C08.KProofsB C08.Check.
+From GZ Require Import C08.Model C08.Spec C08.Proofs C08.KModel C08.KSpec C08.KProofs C08.KProofsB C08.ReqProofs C08.Check.
+From GZgen Require Import C08Consts.
 Import ListNotations.
 Open Scope Z_scope.
 
@@ -66,4 +67,24 @@ Proof.
   induction cs as [|c cs IH]; simpl; [reflexivity|].
   intro H. apply andb_true_iff in H. destruct H as [H1 H2].
   rewrite (agrees_implies_prop_ok_lemma c H1). simpl. apply IH. exact H2.
+Qed.
+
+(* a case that agrees carries, for every form pass, the document GetFormValues (ReqModel.v) makes of
+   the parameters that were sent: the pre-processing mirrored by the generator is the model's *)
+Lemma agreed_forms1 : forall m c f d,
+  agrees1 m c = true -> In (f, d) (oc_forms c) -> form_values gen_max_form_values f = d.
+Proof.
+  intros m c f d Hag Hin. unfold agrees1 in Hag. apply andb_true_iff in Hag. destruct Hag as [Hag _].
+  apply andb_true_iff in Hag. destruct Hag as [_ Hf]. unfold forms_ok in Hf.
+  rewrite forallb_forall in Hf. specialize (Hf (f, d) Hin). simpl in Hf. apply optjv_eqb_eq. exact Hf.
+Qed.
+
+Theorem agreed_forms_case : forall cs c f d,
+  agrees cs = true -> In c cs -> In (f, d) (oc_forms c) -> form_values gen_max_form_values f = d.
+Proof.
+  intros cs c f d. unfold agrees, model_obs, run_calls. rewrite map_map.
+  induction cs as [|c0 cs IH]; simpl; [contradiction|].
+  intros H [Hc | Hc] Hin; apply andb_true_iff in H; destruct H as [H1 H2].
+  - subst. exact (agreed_forms1 _ _ _ _ H1 Hin).
+  - exact (IH H2 Hc Hin).
 Qed.
